@@ -10,6 +10,7 @@ import (
 	"fmt"
 	"os"
 	"path/filepath"
+	"runtime/debug"
 	"sort"
 	"strings"
 	"sync"
@@ -152,7 +153,7 @@ func WriteReplay(id string, repr []byte, violation string) {
 func safeJudge[C any](judge func(C) Verdict, c C) (v Verdict) {
 	defer func() {
 		if r := recover(); r != nil {
-			v = Verdict{Err: fmt.Sprintf("HARNESS-PANIC: %v", r)}
+			v = Verdict{Err: fmt.Sprintf("HARNESS-PANIC: %v\n%s", r, debug.Stack())}
 		}
 	}()
 	return judge(c)
